@@ -132,7 +132,7 @@ def run(ctx: Ctx) -> None:
     ord_pack(sub, 'C02.R3')
     for o in sub.obligations:
         # entry i of a derivative belongs to name i: every positional sequence of parameters follows the sorted names
-        ctx.add('C02.R3', o.construct, o.ok, (o.file, o.line), o.message, o.detail)
+        ctx.adopt('C02.R3', o)
     # the ids by which the engine indexes derivatives are the ones written in the records of the parameters
     from . import c01
 
@@ -140,7 +140,7 @@ def run(ctx: Ctx) -> None:
     c01.run(sub1)
     for o in sub1.obligations:
         if o.construct in ('Beta:record', 'bioLinearUtility:record', 'Derive:record', 'Beta.set_id_manager', 'Beta.set_id_manager:status', 'IdManager.prepare:tables'):
-            ctx.add('C02.R3', o.construct, o.ok, (o.file, o.line), o.message, o.detail)
+            ctx.adopt('C02.R3', o)
     ctx.floor('C02.R3', 19)
 
     ctd = prog.func('function_output', 'convert_to_dict')
